@@ -10,5 +10,6 @@ diff -u /repo/$file $d/$file | head -20 || true
 cd /verif
 VERIF_REPO=$d python3 vcheck.py $check $tier | tail -15
 echo "exit=${PIPESTATUS[0]}"
-rm -rf $d
+tag=alt$(printf %s "$d" | sha256sum | cut -c1-6)
+rm -rf $d /verif/build/$tag-* /verif/build/.lock-$tag-*
 git -C /verif checkout -- evidence 2>/dev/null || true
